@@ -454,6 +454,54 @@ func fwrGenRule(rt *rapid.T, incoming bool) fwrRule {
 	return r
 }
 
+// fwrGenRuleSet draws n rules; about a third of them are variants of an earlier rule with one or
+// two fields redrawn, so that rules land in the same proto/port/CA bucket of the real table and
+// differ only in a selector or in local_cidr. otherDirOneIn: one rule in that many is for the
+// opposite direction (0 = never).
+func fwrGenRuleSet(rt *rapid.T, n int, incoming bool, otherDirOneIn int) []fwrRule {
+	rules := make([]fwrRule, 0, n)
+	for i := 0; i < n; i++ {
+		dir := incoming
+		if otherDirOneIn > 0 && rapid.IntRange(0, otherDirOneIn-1).Draw(rt, "otherDir") == 0 {
+			dir = !incoming
+		}
+		if i > 0 && rapid.IntRange(0, 2).Draw(rt, "variant") == 0 {
+			r := rules[rapid.IntRange(0, i-1).Draw(rt, "variantOf")]
+			r.Groups = append([]string{}, r.Groups...)
+			f := fwrGenRule(rt, dir)
+			for k := rapid.IntRange(1, 2).Draw(rt, "variantFields"); k > 0; k-- {
+				switch rapid.IntRange(0, 9).Draw(rt, "variantField") {
+				case 7, 8, 9:
+					// nested remote prefixes with different local_cidr in one bucket
+					r.CIDR = rapid.SampledFrom(fwrRuleCIDRs[1:]).Draw(rt, "vCIDR2")
+					r.LocalCIDR = rapid.SampledFrom(fwrRuleLocals).Draw(rt, "vLocal2")
+					if r.Host == "any" {
+						r.Host = ""
+					}
+				case 0:
+					r.CIDR = rapid.SampledFrom(fwrRuleCIDRs).Draw(rt, "vCIDR")
+				case 1:
+					r.LocalCIDR = rapid.SampledFrom(fwrRuleLocals).Draw(rt, "vLocal")
+				case 2:
+					r.Groups = f.Groups
+				case 3:
+					r.Host = f.Host
+				case 4:
+					r.Start, r.End = f.Start, f.End
+				case 5:
+					r.CAName, r.CASha = f.CAName, f.CASha
+				case 6:
+					r.Proto = f.Proto
+				}
+			}
+			rules = append(rules, r)
+			continue
+		}
+		rules = append(rules, fwrGenRule(rt, dir))
+	}
+	return rules
+}
+
 // fwrMaybe returns "" (selector not given) except in one of `one` draws, where it samples the list.
 func fwrMaybe(rt *rapid.T, label string, from []string, one int) string {
 	if rapid.IntRange(0, one-1).Draw(rt, label+"Given") != 0 {
@@ -541,6 +589,46 @@ func fwrGenPacket(rt *rapid.T, n fwrNode, p fwrPeer) firewall.Packet {
 		Protocol:   rapid.SampledFrom(fwrProtos).Draw(rt, "proto"),
 		Fragment:   rapid.IntRange(0, 5).Draw(rt, "frag") == 0,
 	}
+}
+
+// fwrLessSpecificDecides: the packet is allowed, and only through rules whose remote cidr is less
+// specific than the cidr of another same-direction rule that also contains the remote address
+// but does not match (the class that breaks a longest-prefix-only lookup).
+func fwrLessSpecificDecides(rules []fwrRule, n fwrNode, peer fwrPeer, cas fwrCAs, p firewall.Packet, incoming bool) bool {
+	best := -1
+	for _, r := range rules {
+		if r.Incoming != incoming || r.CIDR == "" || r.CIDR == "any" || !fwrPrefixContains(r.CIDR, p.RemoteAddr) {
+			continue
+		}
+		if fwrEvalRule(r, n, peer, cas, p, incoming).all() {
+			continue
+		}
+		if b := netip.MustParsePrefix(r.CIDR).Bits(); b > best {
+			best = b
+		}
+	}
+	if best < 0 {
+		return false
+	}
+	any := false
+	for _, r := range rules {
+		if r.Incoming != incoming || !fwrEvalRule(r, n, peer, cas, p, incoming).all() {
+			continue
+		}
+		if r.CIDR == "" || r.CIDR == "any" || !fwrPrefixContains(r.CIDR, p.RemoteAddr) || netip.MustParsePrefix(r.CIDR).Bits() >= best {
+			return false
+		}
+		// does it match without the cidr? then the cidr is not what decides
+		q := r
+		q.CIDR = ""
+		if len(q.Groups) > 0 || q.Host != "" {
+			if fwrEvalRule(q, n, peer, cas, p, incoming).all() {
+				return false
+			}
+		}
+		any = true
+	}
+	return any
 }
 
 func fwrRulesKey(rules []fwrRule) string {
